@@ -465,6 +465,11 @@ def model_values(c, o, rng):
         vals.append(("deframe", deframe_value(c["tunnel"]["data"], c["tunnel"], c.get("uwfail", -1), u)))
     elif c["mode"] == "tcp":
         vals.append(("tcp", tcp_value(c, o, rng)))
+    elif c["mode"] == "udptc":
+        tc = o.get("tc") or {}
+        if len(tc.get("stream", "")) < 12000:
+            vals.append(("udptc", [4, bytes.fromhex(tc.get("stream", "")), list(c["tunnel"].get("cuts") or []),
+                                   c["tunnel"].get("end", 0), [bytes.fromhex(x) for x in tc.get("delivered") or []]]))
     elif c["mode"] == "udpgate":
         if (o.get("g") or {}).get("returned"):
             vals.append(("own", own_value(c, o, rng)))
